@@ -152,6 +152,12 @@ def sync_request(pool, spec: dict) -> dict:
                             parts.append(next(it))
                         except StopIteration:
                             break
+                if spec.get("then") == "read":
+                    # a caller that mixes the two ways of consuming a response: iterate (some of) it, then read() - whatever that does
+                    # (it is documented to raise once the stream has been consumed) must be the same in the sync and the async API
+                    parts.append(b"|read:" + resp.read())
+                elif spec.get("then") == "iter":
+                    parts.append(b"|iter:" + b"".join(resp.iter_stream()))
                 out = _resp_outcome(resp, b"".join(parts), len(parts))
                 out["partial"] = read != "all"
             return out
@@ -195,6 +201,13 @@ async def async_request(pool, spec: dict) -> dict:
                             parts.append(await it.__anext__())
                         except StopAsyncIteration:
                             break
+                if spec.get("then") == "read":
+                    parts.append(b"|read:" + await resp.aread())
+                elif spec.get("then") == "iter":
+                    rest = []
+                    async for part in resp.aiter_stream():
+                        rest.append(part)
+                    parts.append(b"|iter:" + b"".join(rest))
                 out = _resp_outcome(resp, b"".join(parts), len(parts))
                 out["partial"] = read != "all"
             return out
